@@ -151,6 +151,9 @@ pub mod ev {
     pub const LOS_SWEEP: u32 = 22; // a = object, b = nursery?
     pub const HEAP_PAGES: u32 = 23; // a = current heap pages (dynamic trigger)
     pub const ALLOC_SLOW_ITER: u32 = 24; // a = size, b = is_mutator: one iteration of alloc_slow_inline
+    /// a = space index, b = 0: every page of the space is released; b = top: pages above `top`
+    /// are released (monotone page resources).
+    pub const PAGES_RESET: u32 = 25;
 }
 
 /// Fault kinds.
